@@ -149,6 +149,9 @@ class C05(Property):
                         cmd += [rng.choice(["-c", "--with-certificate"])]
                     if enc:
                         cmd += ["--encoding", enc]
+                    if rng.random() < 0.1 and os.path.exists("/usr/local/bin/kissat"):
+                        # a real external solver (exit status 10 / 20) with an option passed through
+                        cmd += ["--external-sat-solver", "/usr/local/bin/kissat", "--external-sat-solver-opt=-q"]
                     rng.shuffle(cmd[2:]) if False else None
                 jobs.append(("ok", cmd, dict(fmt=fmt, labels=labels, atts=atts, n=n, task=t, sem=s, arg=arg, cert=cert, literal=shown)))
         # malformed invocations
